@@ -41,8 +41,8 @@ struct Outcome {
   const char* msg_ptr = nullptr; // only dereferenced when the message is known to be a literal
 };
 
-template <typename F>
-static Outcome observe(F&& f) {
+// (type-erased on purpose: one instantiation of the catch ladder / of the contexts instead of one per matrix cell)
+static Outcome observe(const std::function<void()>& f) {
   Outcome o;
   try {
     f();
@@ -80,21 +80,20 @@ struct Carrier {
   int tag;
 }; // the exception whose propagation provides the context
 
-template <typename F>
+using Thunk = std::function<void()>;
 struct AtUnwind {
-  F& f;
+  const Thunk& f;
   ~AtUnwind() { f(); }
 };
 
-template <typename F>
-static void in_context(uint64_t where, F& f) {
+static void in_context(uint64_t where, const Thunk& f) {
   switch (where) {
     case 0:
       f();
       return;
     case 1:
       try {
-        AtUnwind<F> g{f};
+        AtUnwind g{f};
         throw Carrier{1};
       } catch (const Carrier&) {
       }
@@ -111,7 +110,7 @@ static void in_context(uint64_t where, F& f) {
         throw std::runtime_error("being handled");
       } catch (const std::exception&) {
         try {
-          AtUnwind<F> g{f};
+          AtUnwind g{f};
           throw Carrier{3};
         } catch (const Carrier&) {
         }
@@ -127,11 +126,9 @@ static void in_context(uint64_t where, F& f) {
   }
 }
 
-template <typename F>
-static Outcome observe_in(uint64_t where, F&& f) {
+static Outcome observe_in(uint64_t where, const Thunk& f) {
   Outcome o;
-  auto g = [&] { o = observe(f); };
-  in_context(where, g);
+  in_context(where, [&] { o = observe(f); });
   return o;
 }
 
@@ -842,10 +839,10 @@ static void enum_retain(Enum& e) {
 int main(int argc, char** argv) {
   std::vector<SubCheck> checks;
   checks.push_back({"raises", run_raises, nullptr, 0, 0, 100, enum_raises});
-  checks.push_back({"rel_int", run_rel_int, gen_rel_int, 100000, 800000, 100, enum_rel_int});
-  checks.push_back({"rel_dbl", run_rel_dbl, gen_rel_dbl, 100000, 800000, 100, enum_rel_dbl});
-  checks.push_back({"rel_str", run_rel_str, gen_rel_str, 100000, 800000, 100, enum_rel_str});
-  checks.push_back({"retain", run_retain, gen_retain, 20000, 200000, 100, enum_retain});
-  checks.push_back({"truth", run_truth, gen_truth, 100000, 800000, 100, enum_truth});
+  checks.push_back({"rel_int", run_rel_int, gen_rel_int, 160000, 800000, 100, enum_rel_int});
+  checks.push_back({"rel_dbl", run_rel_dbl, gen_rel_dbl, 160000, 800000, 100, enum_rel_dbl});
+  checks.push_back({"rel_str", run_rel_str, gen_rel_str, 160000, 800000, 100, enum_rel_str});
+  checks.push_back({"retain", run_retain, gen_retain, 40000, 200000, 100, enum_retain});
+  checks.push_back({"truth", run_truth, gen_truth, 200000, 800000, 100, enum_truth});
   return main_(argc, argv, checks);
 }
